@@ -17,6 +17,7 @@ A recipe is a dict:
   rewrites  list of [regex, replacement, min_count]  (re.M | re.S as given in pattern flags (?s))
   self_to   if set, replace \\bself\\b by this identifier
   deasync   if true, drop `.await`
+  if_absent text used as the body when the anchor does not exist in this tree (helper functions only: unreachable then)
 A stale recipe (anchor not found / rewrite count below min) raises StaleRecipe.
 """
 import hashlib
@@ -172,6 +173,12 @@ def lift(recipe, read_file):
     else:
         ms = list(re.finditer(recipe['start'], src, re.M))
         nth = recipe.get('nth', 0)
+        if len(ms) <= nth and 'if_absent' in recipe:
+            # a helper that does not exist in this tree: nothing in the lifted code can call it (the tree compiles), so the
+            # stand-in body is unreachable; it only has to type-check
+            t = recipe['if_absent']
+            return {'text': t, 'file': recipe['file'], 'line_start': 0, 'line_end': 0,
+                    'sha256': hashlib.sha256(t.encode()).hexdigest(), 'raw_sha256': hashlib.sha256(t.encode()).hexdigest(), 'absent': True}
         if len(ms) <= nth:
             raise StaleRecipe("anchor %r not found (match #%d) in %s" % (recipe['start'], nth, recipe['file']))
         m = ms[nth]
